@@ -306,7 +306,8 @@ pub fn minimise(make: MakeWorld, cfg: &Cfg, ops: &[Op], sig: &str, budget: usize
     let mut execs = 0usize;
     // bounded in executions and in wall time (long traces that do not shrink would otherwise cost budget x run time);
     // once the time is up every further candidate counts as "does not reproduce", which only makes the result less minimal
-    let deadline = std::time::Instant::now() + std::time::Duration::from_secs(120);
+    let secs = std::env::var("VERIF_MIN_SECS").ok().and_then(|s| s.parse().ok()).unwrap_or(120u64);
+    let deadline = std::time::Instant::now() + std::time::Duration::from_secs(secs);
     let test = |cand: &[Op], execs: &mut usize| -> bool {
         *execs += 1;
         if std::time::Instant::now() > deadline {
